@@ -115,7 +115,7 @@ class Prop(common.PropertyCheck):
     def col_pool(self, D, small):
         names = ['ch%d' % c for c in range(D)]
         atoms = [{'t': 'pos', 'v': i} for i in range(-D - 1, D + 1)] + [{'t': 'name', 'v': n} for n in names] + \
-                [{'t': 'name', 'v': 'nope'}, {'t': 'bool', 'v': True}, {'t': 'npint', 'v': 0}]
+                [{'t': 'name', 'v': 'nope'}, {'t': 'name', 'v': 'CH0'}, {'t': 'name', 'v': 'Ch%d' % (D - 1)}, {'t': 'name', 'v': 'ch0 '}, {'t': 'bool', 'v': True}, {'t': 'npint', 'v': 0}]
         ks = [{'t': 'ellipsis'}] + atoms
         ends = [None] + list(range(-D - 1, D + 2))
         steps = [None, 1, 2, -1, -2] if not small else [None, 2, -1]
@@ -151,7 +151,8 @@ class Prop(common.PropertyCheck):
                 return {'t': 'name', 'v': rng.choice(names)}
             if r < 0.9:
                 return {'t': 'pos', 'v': rng.randrange(-D, D)}
-            return rng.choice([{'t': 'pos', 'v': D}, {'t': 'name', 'v': 'zz'}, {'t': 'bool', 'v': True}, {'t': 'npint', 'v': 1}])
+            return rng.choice([{'t': 'pos', 'v': D}, {'t': 'pos', 'v': -D - 1 - rng.randrange(0, 2 * D)}, {'t': 'name', 'v': 'zz'}, {'t': 'name', 'v': 'CH%d' % rng.randrange(D)},
+                               {'t': 'name', 'v': ' ch0'}, {'t': 'bool', 'v': True}, {'t': 'npint', 'v': 1}])
         t = rng.choice(['atom', 'slice', 'list', 'list', 'ellipsis'])
         if t == 'atom':
             return atom()
